@@ -212,8 +212,17 @@ def oracle_core(ctx, rng, n):
     for ci in range(n):
         keep = [p for p in gi.core_positions(2) if p == (1, 1) or rng.random() < 0.8]
         gm = rng.choice(['flow', 'no_flow', 'duct_average'])
-        base = gi.random_case(rng, positions=keep, n_types=2, gap_model=gm, length=0.08, with_power=False, flow_range=(0.5, 4.0),
-                              type_kw=dict(n_duct=1))
+        for _try in range(8):
+            base = gi.random_case(rng, positions=keep, n_types=2, gap_model=gm, length=0.08, with_power=False, flow_range=(0.5, 4.0),
+                                  type_kw=dict(n_duct=1))
+            if len(set(t['num_rings'] for t in base['types'].values())) == 2:
+                break
+        # the two types (different ring counts = different gap meshes) alternate around ring 2, so that gap corners see mixed
+        # meshes; the numbering seam (position 6 -> 1) then falls between unlike neighbours
+        names = list(base['types'])
+        for k, asm in enumerate(base['assignment']):
+            if ci % 2 == 0:
+                asm['type'] = names[k % 2]
         base['core']['bypass_fraction'] = 0.03
         pw = asym_power(rng, base)
         try:
@@ -298,7 +307,7 @@ def run(ctx):
         import traceback
         ctx.problem("trace-failed", "c07 local-form tracer", traceback.format_exc()[-1500:])
     oracle_single(ctx, rng, 16 if ctx.thorough else 5)
-    oracle_core(ctx, rng, 6 if ctx.thorough else 2)
+    oracle_core(ctx, rng, 8 if ctx.thorough else 3)
     ctx.nontrivial = ctx.evals
     ctx.traces = ctx.evals
     ctx.trusted += ["permutations are derived from the centroid coordinates the code publishes (nearest neighbour); Lean checks "
